@@ -124,6 +124,27 @@ pub fn make_scenario(rng : &mut Rng, prop : &str, thorough : bool) -> Scenario
         run.world.set_rules(next);
     }
 
+    // C05 also covers invocations that must end with an error VALUE because a state file is unreadable (damaged by hand,
+    // by a disk, by another tool): whatever the interleaving, no panic, no hang, no channel error
+    if prop == "C05" && rng.chance(1, 6)
+    {
+        let mut candidates = run.world.sys.disk().files_under(&format!("{}/history", RULER_DIR));
+        candidates.push(format!("{}/current_file_states", RULER_DIR));
+        let victim = candidates[rng.below(candidates.len())].clone();
+        if let Some(bytes) = run.world.sys.read_file(&victim)
+        {
+            let damaged : Vec<u8> = match rng.below(3)
+            {
+                0 => vec![],
+                1 => bytes[..bytes.len() / 2].to_vec(),
+                _ => { let mut b = bytes.clone(); for x in b.iter_mut().take(12) { *x = 0xff; } b },
+            };
+            run.world.sys.tick();
+            run.world.sys.user_write(&victim, &damaged, false);
+            run.world.note_op(format!("DamageStateFile({}, {} of {} bytes kept)", victim, damaged.len(), bytes.len()));
+        }
+    }
+
     // failure injection
     let mut failures = 0;
     let want_failures = match prop { "C04" => rng.range(1, 3), "C05" => rng.below(3), _ => if rng.chance(1, 5) { 1 } else { 0 } };
